@@ -200,10 +200,13 @@ class AddData(Command):
     label = 'add data'
 
     def do(self, session):
+        # if the data is already in the collection there is nothing to undo
+        self._added = self.data not in session.data_collection
         session.data_collection.append(self.data)
 
     def undo(self, session):
-        session.data_collection.remove(self.data)
+        if self._added:
+            session.data_collection.remove(self.data)
 
 
 class RemoveData(Command):
@@ -211,10 +214,13 @@ class RemoveData(Command):
     label = 'remove data'
 
     def do(self, session):
+        # if the data is not in the collection there is nothing to undo
+        self._removed = self.data in session.data_collection
         session.data_collection.remove(self.data)
 
     def undo(self, session):
-        session.data_collection.append(self.data)
+        if self._removed:
+            session.data_collection.append(self.data)
 
 
 class NewDataViewer(Command):
